@@ -16,6 +16,8 @@ func init() {
 }
 
 func runC17(c *Ctx) {
+	// shared with C19 (R19.5b): the flag survives HTTP decoding in every spelling the API accepts
+	checkBoolDecoders(c, "R17.1")
 	R := c.R
 	// ---- R17.1 plumbing: server
 	sf := c.P.Func("server.parseTracerouteParams")
